@@ -850,3 +850,122 @@ Proof.
         destruct (lower_cases i1) as [[? E']|[? E']]; rewrite E'; lia. }
     lia.
 Qed.
+
+Lemma dec_second_char d0 ir fo eo c2 r2 :
+  forallb is_dec (d0 :: ir) = true ->
+  ir ++ frac_part fo ++ exp_part_chars false eo = c2 :: r2 -> lower c2 <> 120.
+Proof.
+  intros Hic E. destruct ir as [|i1 ir'].
+  - cbn [app] in E. destruct fo as [f|]; cbn [frac_part app] in E.
+    + injection E as <- _. discriminate.
+    + destruct eo as [[[up' sg] ds]|]; cbn [exp_part_chars] in E; [|discriminate].
+      injection E as <- _. destruct up'; discriminate.
+  - cbn [app] in E. injection E as <- _. cbn [forallb] in Hic.
+    apply andb_true_iff in Hic as [_ Hic]. apply andb_true_iff in Hic as [Hi1 _]. unfold is_dec in Hi1.
+    destruct (lower_cases i1) as [[? E']|[? E']]; rewrite E'; lia.
+Qed.
+
+Lemma parse_normalized l b16 :
+  float_lit_ok l = true -> ctx_ok b16 l = true ->
+  let str := normalize_float (render_float l) b16 in
+  is_neg_text str = f_neg l /\
+  go_parse_float_parts (if f_neg l then tl str else str) = Some (false, f_hex l, float_mant l, float_exp l).
+Proof.
+  intros Hok Hctx. cbv zeta. rewrite (normalize_render l b16 Hok Hctx).
+  destruct (float_ok_parts l Hok) as [Hic [Hfo Heo]].
+  rewrite float_mant_clean, float_exp_clean.
+  unfold norm_pfx, norm_eo.
+  set (ic := fl_ic l) in *. set (fo := fl_fo l) in *. set (eo := fl_eo l) in *.
+  assert (Hicne : exists d0 ir, ic = d0 :: ir) by (unfold ic, fl_ic, dseq_chars; eauto).
+  destruct Hicne as [d0 [ir Eic]].
+  assert (Hne : nonempty ic = true) by (rewrite Eic; reflexivity).
+  destruct (f_hex l) eqn:Eh.
+  - (* hex *)
+    set (px := match f_prefix l with Some up => prefix_chars B16 up | None => [48; 120] end).
+    assert (Epx : exists x, px = [48; x] /\ lower x = 120).
+    { unfold px. destruct (f_prefix l) as [[|]|]; cbn [prefix_chars]; eexists; split; reflexivity. }
+    destruct Epx as [x [Epx Hx]]. rewrite Epx.
+    split.
+    + destruct (f_neg l); reflexivity.
+    + replace (if f_neg l
+               then tl (sign_chars (f_neg l) ++ [48; x] ++ ic ++ frac_part fo ++ exp_part_chars true (with_p0 eo))
+               else sign_chars (f_neg l) ++ [48; x] ++ ic ++ frac_part fo ++ exp_part_chars true (with_p0 eo))
+        with (48 :: x :: ic ++ frac_part fo ++ exp_part_chars true (with_p0 eo)) by (destruct (f_neg l); reflexivity).
+      unfold go_parse_float_parts.
+      change (48 =? c_minus) with false. change (48 =? c_plus) with false. cbv iota.
+      rewrite Eic. cbn [app]. rewrite Hx. change ((48 =? 48) && (120 =? 120)) with true. cbv iota.
+      cbn [skipn]. rewrite <- Eic.
+      change (d0 :: ir ++ frac_part fo ++ exp_part_chars true (with_p0 eo))
+        with ((d0 :: ir) ++ frac_part fo ++ exp_part_chars true (with_p0 eo)). rewrite <- Eic.
+      rewrite (scan_float_clean true true ic fo (with_p0 eo) Hne Hic Hfo).
+      * rewrite exp_part_val_p0. reflexivity.
+      * destruct eo as [[[? ?] ?]|]; [exact Heo | reflexivity].
+      * intros _. destruct eo as [[[? ?] ?]|]; discriminate.
+  - (* decimal *)
+    cbn [app]. cbn [fdigit] in Hic.
+    assert (Hd0 : is_dec d0 = true) by (rewrite Eic in Hic; cbn [forallb] in Hic; apply andb_true_iff in Hic; tauto).
+    split.
+    + destruct (f_neg l); [reflexivity|]. rewrite Eic. cbn [sign_chars app is_neg_text].
+      unfold is_dec, c_minus in *. lia.
+    + replace (if f_neg l
+               then tl (sign_chars (f_neg l) ++ ic ++ frac_part fo ++ exp_part_chars false eo)
+               else sign_chars (f_neg l) ++ ic ++ frac_part fo ++ exp_part_chars false eo)
+        with (ic ++ frac_part fo ++ exp_part_chars false eo) by (destruct (f_neg l); reflexivity).
+      unfold go_parse_float_parts.
+      assert (E0 : exists rr, ic ++ frac_part fo ++ exp_part_chars false eo = d0 :: rr
+                              /\ rr = ir ++ frac_part fo ++ exp_part_chars false eo)
+        by (rewrite Eic; cbn [app]; eauto).
+      destruct E0 as [rr [E0 Err]]. rewrite E0.
+      replace (d0 =? c_minus) with false by (unfold is_dec, c_minus in *; lia).
+      replace (d0 =? c_plus) with false by (unfold is_dec, c_plus in *; lia).
+      assert (Hnh : match rr with
+                    | c :: _ :: _ => (d0 =? 48) && (lower c =? 120)
+                    | _ => false
+                    end = false).
+      { destruct rr as [|c2 r2]; [reflexivity|]. destruct r2; [reflexivity|].
+        symmetry in Err. rewrite Eic in Hic. pose proof (dec_second_char d0 ir fo eo c2 _ Hic Err). lia. }
+      assert (Hnh' : match d0 :: rr with
+                     | z :: c :: _ :: _ => (z =? 48) && (lower c =? 120)
+                     | _ => false
+                     end = false) by (destruct rr as [|c2 [|c3 r3]]; [reflexivity | reflexivity | exact Hnh]).
+      rewrite Hnh'. rewrite <- E0.
+      rewrite (scan_float_clean false false ic fo eo Hne Hic Hfo Heo) by discriminate.
+      reflexivity.
+Qed.
+
+(* ------------------------------------------------------------------ *)
+(* array elements: floats                                               *)
+(* ------------------------------------------------------------------ *)
+
+Lemma big_underflows_bounded mant exp : (- 2 ^ 29 <= exp)%Z -> big_underflows mant exp = false.
+Proof.
+  intro H. unfold big_underflows, log2_10_num, log2_10_den.
+  assert (Hdiv : (- 2 ^ 31 <= exp * 3321928094887362347870319429 / 1000000000000000000000000000)%Z).
+  { apply Z.div_le_lower_bound; [lia|]. change (2 ^ 29)%Z with 536870912%Z in H. change (2 ^ 31)%Z with 2147483648%Z. lia. }
+  change (2 ^ 31)%Z with 2147483648%Z in *.
+  destruct (exp <? 0)%Z; [|reflexivity]. cbn [andb].
+  apply andb_false_iff. right. apply Z.ltb_ge. lia.
+Qed.
+
+Section FloatElemProofs.
+  Variable round : N -> bool -> N -> Z -> N.
+
+  Theorem float_elem_exact (b16 : bool) (bits : N) (l : float_lit) :
+    bits = 32 \/ bits = 64 ->
+    float_lit_ok l = true -> ctx_ok b16 l = true ->
+    (- 2 ^ 29 <= float_exp l)%Z ->
+    impl_float_elem round b16 bits (render_float l) = spec_float_elem round bits l.
+  Proof.
+    intros Hbits Hok Hctx Hexp.
+    destruct (parse_normalized l b16 Hok Hctx) as [Hneg Hparse]. cbv zeta in Hneg, Hparse.
+    unfold impl_float_elem.
+    assert (Hs : strip_us (render_float l) <> []).
+    { rewrite (strip_render_float l Hok). unfold fl_ic, dseq_chars.
+      destruct (sign_chars (f_neg l)), (fl_pfx l); cbn [app]; discriminate. }
+    destruct (strip_us (render_float l)) as [|s0 sr] eqn:Es; [congruence|].
+    rewrite Hneg, Hparse. cbn [xorb]. rewrite xorb_false_r.
+    unfold float_elem_bits, spec_float_elem, is_float_zero.
+    rewrite (big_underflows_bounded _ _ Hexp), andb_false_r, orb_false_r.
+    destruct Hbits as [-> | ->]; reflexivity.
+  Qed.
+End FloatElemProofs.
